@@ -39,6 +39,7 @@ def reset_all():
     AttributeCollection.cached = None
     AttributeCollection.previous = b''
     AttributeCollection.previous_asn4 = False
+    AttributeCollection.previous_aigp = False
     for code, cache in list(Attribute.cache.items()):
         try:
             cache.clear()
@@ -88,9 +89,20 @@ def sk_bad_origin(ctx, asn4=True):
     return K.body([], [K.a_origin(ctx, ext=False), K.a_aspath(ctx, segs=((2, 1),), asn4=asn4, ext=False), K.a_nexthop(ctx, ext=False)], [K.prefix(ctx, 'n0', 3, False)])
 
 
-SHAPES = {'aspath': sk_aspath, 'comm': sk_comm, 'withdraw': sk_withdraw, 'origin': sk_bad_origin}
+def sk_aigp(ctx):
+    """ORIGIN, empty AS_PATH, NEXT_HOP, AIGP (RFC 7311: optional non-transitive, one TLV type 1 length 11, metric free) + one
+    prefix.  Whether AIGP is accepted depends on the SESSION (capability aigp): the same bytes must be discarded on a session
+    without it whatever was decoded before."""
+    return K.body([], [K.a_origin(ctx, ext=False), K.a_aspath(ctx, segs=(), ext=False), K.a_nexthop(ctx, ext=False),
+                       K.attr(ctx, 'aigp', 0x80, 26, [1, 0, 11] + K.sym(ctx, 'metric', 8), ext=False)], [K.prefix(ctx, 'n0', 3, False)])
+
+
+SHAPES = {'aspath': sk_aspath, 'comm': sk_comm, 'withdraw': sk_withdraw, 'origin': sk_bad_origin, 'aigp': sk_aigp}
 PAIRS = [('aspath', 'aspath'), ('comm', 'comm'), ('origin', 'origin'), ('aspath', 'comm'), ('withdraw', 'aspath'), ('origin', 'aspath')]
 SESSION_PAIRS = [('asn4', 'asn4'), ('asn4', 'asn2'), ('asn2', 'asn4'), ('asn2', 'asn2')]
+# every session parameter an attribute decoder reads must be a dimension here (read from the source on every run: SESSION_DEPENDENCE)
+SESSIONS = dict(C2.SESSIONS, aigp=dict(families=('ipv4 unicast', 'ipv6 unicast'), adj_rib_in=True, aigp=True))
+AIGP_SESSION_PAIRS = [('aigp', 'asn4'), ('asn4', 'aigp'), ('aigp', 'aigp')]
 
 
 def decode(data, neg, force=True):
@@ -134,8 +146,8 @@ def render(msg, neg):
 
 
 def h_pair(ctx, shape1, shape2, s1, s2, caching, third=False):
-    n1 = S.session('in', **C2.SESSIONS[s1])
-    n2 = S.session('in', **C2.SESSIONS[s2])
+    n1 = S.session('in', **SESSIONS[s1])
+    n2 = S.session('in', **SESSIONS[s2])
     def build(shape, pfx, sess):
         if shape == 'origin':
             return SHAPES[shape](Pfx(ctx, pfx), asn4=sess != 'asn2')  # a well-formed path for ITS session
@@ -197,4 +209,9 @@ def units(tier):
             if th:
                 us.append(Unit('triple/%s-%s/%s-%s' % (p1, p2, s1, s2), lambda ctx, p1=p1, p2=p2, s1=s1, s2=s2: h_pair(ctx, p1, p2, s1, s2, True, third=True),
                                hash_const=True, reset=reset_all, weight=8, max_seconds=300))
+    for (s1, s2) in AIGP_SESSION_PAIRS:
+        for caching in (False, True):
+            us.append(Unit('pair/aigp-aigp/%s-%s/%s' % (s1, s2, 'cache' if caching else 'nocache'),
+                           lambda ctx, s1=s1, s2=s2, c=caching: h_pair(ctx, 'aigp', 'aigp', s1, s2, c),
+                           must_cover=('decoded',), hash_const=True, reset=reset_all, weight=5, max_seconds=300))
     return us
